@@ -340,6 +340,17 @@ def main(chk):
     mc_cases(chk, rng, 40 if q else 1500)
     dyna_model_cases(chk, rng, 60 if q else 2000)
     planning_cases(chk, rng, 24 if q else 400)
+    import tabruns
+    for k in range(4 if q else 40):      # the model as train_dynaq itself builds and refreshes it (its own counters), on stochastic successors
+        script = [(int(rng.choice([3, 5, 8])), str(rng.choice(["term", "trunc"]))) for _ in range(3)]
+        ns, na, total = int(rng.choice([2, 3])), int(rng.choice([2, 3])), int(rng.choice([12, 20]))
+        res = tabruns.run("dynaq", ns, na, script, total, seed=int(rng.integers(0, 1000)), epsilon=0.7)
+        case = {"routine": "train_dynaq", "script": script, "total_timesteps": total, "n_states": ns, "n_actions": na}
+        chk.case(("dyna-run", str(case)))
+        chk.count("dynaq_model_runs")
+        bad = None if res["raised"] else tabruns.check_dyna_model(res)
+        if bad:
+            chk.fail("C14:dynaq:model-empirical", bad[0], {"case": case, **bad[1]})
     recorded_runs(chk, rng, 12 if q else 200)
     chk.sample({"kind": "single updates", "note": "tables of dyadic entries k/4, lr and gamma in {0,1/4,1/2,1}: float32 results are exact and must equal the rational model"})
     return chk.finish(
